@@ -222,7 +222,14 @@ def check_fit(case, ctx):
                 Js, Jh = J(shape, sol, x, y), J(shape, ph, x, y)
                 if Jh > Js + 1e-4 * Js + 1e-8 * scale:
                     ctx.violation(f"linear_lsq:{shape}", f"{tag}: J(fitted)={Jh!r} but the linear least-squares solution {sol.tolist()} has J={Js!r}")
-                elif np.linalg.cond(A) < 1e3 and not np.allclose(ph, sol, rtol=1e-3, atol=1e-4 * max(1.0, np.abs(sol).max())):
+                elif (
+                    np.linalg.cond(A) < 1e3
+                    # (a solution within 1e-3 of a finite bound: TRF's strictly interior iterates stop that far short,
+                    # see is_optimal; the objective comparison above still applies)
+                    and np.all(sol > lo + 1e-3 * max(1.0, np.abs(sol).max()))
+                    and np.all(sol < hi - 1e-3 * max(1.0, np.abs(sol).max()))
+                    and not np.allclose(ph, sol, rtol=1e-3, atol=1e-4 * max(1.0, np.abs(sol).max()))
+                ):
                     ctx.violation(f"linear_lsq_params:{shape}", f"{tag}: lstsq solution {sol.tolist()}")
 
 
